@@ -16,9 +16,15 @@ for name in sorted(os.listdir(os.path.join(ROOT, "seeded"))):
     needs = re.sub(r"\s+", " ", (m.get("needs") or "")).strip()
     if len(needs) > 200:
         needs = needs[:197] + "..."
-    out = last.get("outcome", "not run")
-    rows.append("| %s | %s | %s | %s (%ss) |" % (name, summary.replace("|", "/"), needs.replace("|", "/"), out, last.get("seconds", "?")))
-table = "| change | what it does | what it needs to manifest | `./check <ID> quick` |\n|---|---|---|---|\n" + "\n".join(rows) + "\n"
+    own = name.split("-")[0]
+    cells = []
+    for r in sorted(runs, key=lambda r: (r.get("check", "").split()[1] != own, r.get("check", ""))):
+        pid = r.get("check", "./check ? quick").split()[1]
+        o = r.get("outcome", "?")
+        o = "missed" if o.startswith("MISSED") else o.lower()
+        cells.append("%s: %s (%ss)" % (pid, o, r.get("seconds", "?")))
+    rows.append("| %s | %s | %s | %s |" % (name, summary.replace("|", "/"), needs.replace("|", "/"), "; ".join(cells) or "not run"))
+table = "| change | what it does | what it needs to manifest | quick check of the property (first), then of others |\n|---|---|---|---|\n" + "\n".join(rows) + "\n"
 p = os.path.join(ROOT, "DESIGN.md")
 s = open(p).read()
 a, b = s.index("<!-- SEEDTABLE-BEGIN -->"), s.index("<!-- SEEDTABLE-END -->")
